@@ -455,6 +455,8 @@ def h_panic(engine, st, fr, callee, argv, m):
 
 CORE_STUBS = [
     (rx(r"^core::panicking::(panic|panic_fmt|unreachable_display|panic_explicit)"), h_panic),
+    (rx(r"^std::rt::(panic_fmt|begin_panic)"), h_panic),
+    (rx(r"^(?:core::fmt::)?Arguments::<'_>::from_str$"), lambda e, st, fr, c, a, m: Opaque("fmtargs", "literal", {"template": bytes_of(e, a[0])})),
     (rx(r"^(?:char::methods::<impl char>::|core::char::|char::)?from_u32$"), h_from_u32),
     (rx(r"^char::methods::<impl char>::encode_utf8$"), h_encode_utf8),
     (rx(r"^<std::ops::Range<u8> as IntoIterator>::into_iter$"), h_range_into_iter),
@@ -555,7 +557,13 @@ def h_transpose(engine, st, fr, callee, argv, m):
     return ("fork", alts)
 
 
+def h_map_drop(engine, st, fr, callee, argv, m):
+    r = argv[0]
+    return EnumV("Result", r.discr, {0: [UnitV()], 1: list(r.variants.get(1, [UNINIT]))})
+
+
 COMBINATOR_STUBS = [
+    (rx(r"^std::result::Result::<.*>::map::<\(\), fn\(\w+\) \{std::mem::drop::<\w+>\}>$"), h_map_drop),
     (rx(r"^Option::<.*>::ok_or_else::<"), h_ok_or_else),
     (rx(r"^std::result::Result::<.*>::and_then::<"), h_and_then),
     (rx(r"^std::result::Result::<.*>::map_err::<"), h_map_err),
